@@ -19,5 +19,6 @@ theorem flag_snapshotProtocol : snapshotProtocol = true := by decide +kernel
 theorem flag_snapReadLocked : snapReadLocked = true := by decide +kernel
 theorem flag_appendCopyShareMutex : appendCopyShareMutex = true := by decide +kernel
 theorem flag_restoreFiltersById : restoreFiltersById = true := by decide +kernel
+theorem flag_capacityUnderCollLock : capacityUnderCollLock = true := by decide +kernel
 
 end ColumnVerif.Props.C08skel
